@@ -49,9 +49,9 @@ func NewPreprocReader(r io.Reader, c *Codec) *PreprocReader {
 	}
 }
 
-// empty line or comment
+// lines the compiler's parser skips (see parse): shorter than two bytes, or a comment
 func isIgnored(line []byte) bool {
-	if len(line) < 1 || decodeRtype(line) == prefixComment {
+	if len(line) < 2 || decodeRtype(line) == prefixComment {
 		return true
 	}
 	return false
@@ -74,7 +74,8 @@ func (p *PreprocReader) Scan() bool {
 	}
 
 	for p.scanner.Scan() {
-		line := p.scanner.Bytes()
+		// same line filter as the compiler's parser, which trims leading blanks first
+		line := bytes.TrimLeft(p.scanner.Bytes(), " ")
 		if isIgnored(line) {
 			continue
 		}
